@@ -19,7 +19,9 @@ NEED = ('end:accept', 'end:accept-halt', 'end:accept-pv', 'end:block', 'end:none
         # port reads at edge port numbers executed by the contended playbacks (MEMPTR = port + 1 carries into the high byte only
         # for n = FF), and BIT k,(HL) right after them (MEMPTR's high byte shows in F), also in SZX recordings (MEMPTR field compared)
         'cmio:in-a:FF', 'cmio:bit-after-in', 'cmio:bit-after-in-a-FF', 'cmio:bit-after-in-a-FF-carry-in-f',
-        'cmio-szx:in-a:FF')
+        'cmio-szx:in-a:FF',
+        # mode 2 interrupts accepted with the vector wrapping at 64K (I = FF) or crossing a 16K page edge (3F 7F BF)
+        'int-im2:I=FF', 'int-im2:I=FF:48K', 'int-im2:I=FF:128K', 'int-im2-straddle', 'int-im2:I=3F', 'int-im2-straddle:two-ram-pages')
 
 
 def judge_traces(rep, traces, wd):
@@ -102,6 +104,7 @@ def run(tier):
     rep.drift = len(noclaim)
     rep.extra['recorder'] = dict(stats)
     rep.extra['interrupts_accepted_with_sp_at_edge'] = {k: v for k, v in sorted(stats.items()) if k.startswith('int-sp')}
+    rep.extra['im2_interrupts_with_vector_at_page_edge'] = {k: v for k, v in sorted(stats.items()) if k.startswith('int-im2')}
     rep.extra['port_edges_under_cmio_playback'] = {k: v for k, v in sorted(stats.items()) if k.startswith('cmio')}
     rep.extra['claimed_cases'] = dict(claimed)
     rep.extra['no_claim_flags_do_not_match_convention'] = len(noclaim)
@@ -144,7 +147,8 @@ def run(tier):
     rep.rule = ('generated programs (IN A,(n)/IN r,(C)/INI.. with values steering branches, HALT, EI/DI, IM 0/1/2 with the ROM or a RAM '
                 'handler, LD A,I/R, prefix chains, 128K paging, LD SP,nn with nn at the ROM/RAM border or the 64K wrap (4001 4000 4002 0001 0000 '
                 '0002 FFFF 3FFF) then EI and a wait so that the frame interrupt pushes PC half into ROM, handlers that return or reset SP '
-                'and restart, IN A,(n) / OUT (n),A / IN r,(C) / INI / IND / OUT (C),r at port numbers FF FE 00 7F 80 1F with A or B in '
+                'and restart, IM 2 with I mostly from FF 3F 7F BF FE 40 (vector wrapping at 64K / crossing a 16K page: its ROM bytes as the ROM '
+                'has them, the handler placed where the two bytes point; LD I,A switches between two such values), IN A,(n) / OUT (n),A / IN r,(C) / INI / IND / OUT (C),r at port numbers FF FE 00 7F 80 1F with A or B in '
                 '00 07 7F FF followed by BIT k,(HL) / BIT k,(IX+d) and a store of or a branch on F (MEMPTR made visible), byte soup) recorded by the harness recorder on the real C simulators '
                 '(plain and contended) into 1-3 blocks of frames of 1..900 fetches ({z80 v1/v2/v3, szx} snapshots, compressed or not, '
                 'repeated-frame markers, empty frames, conventions 0..3); played by rzxplay.main under {C,--python} x {plain,--cmio} x '
